@@ -44,6 +44,12 @@ CHECKS = {
   text="Seeds of standard and non-standard lengths, boundary child indices, paths of depth up to 8 (one of depth 40/255 per run) in every textual form; every derivation step is compared field by field and as xprv/xpub strings with the reference, private vs public derivation are cross-checked, corrupted strings must be rejected.",
   note="Trusted: refimpl::bip32, refimpl::secp, refimpl::hashes. IL >= n branches unreachable by generation.",
   ref="DESIGN.md §3 C08"),
+ "C09": dict(
+  technique="robustness fuzzing with structured generators (proptest: prefixes, mutants, length-field substitutions of valid encodings, random bytes/text) over 49 decoder entry points under process supervision, with a counting allocator as memory oracle; libFuzzer targets in the thorough tier",
+  text="Every decoder is fed the empty input, all one-byte inputs, every prefix of valid encodings, mutants, extreme declared lengths in every compact-size form, long tails and conditionals nested 100 000 deep; a violation is a panic (caught), the death of the supervised child (journal attribution) or a call whose peak live heap exceeds 64 KiB + 1024 x input length (measured by a counting global allocator).",
+  note="Trusted: the counting allocator and the child supervision of the harness. The memory constants have a > 4x margin over the worst ratio measured on valid inputs.",
+  ref="DESIGN.md §3 C09"),
+
  "C11": dict(
   technique=T+"reference BIE1 construction (reference EC multiplication, SHA-512, AES-128-CBC, HMAC-SHA256); exhaustive single-bit tampering for short messages",
   text="Key pairs, message lengths over every residue mod 16, both inclusion modes; ciphertext and derived keys must be byte-identical to the reference BIE1 construction, decrypt must invert (also after serialisation), every single-bit corruption after the magic (exhaustive for four message lengths, sampled otherwise) and every wrong key must yield an error.",
@@ -80,6 +86,22 @@ CHECKS = {
   text="Tens of thousands of adversarial programs per run over every opcode value (incl. bare structural opcodes built through from_script_bits), hostile operands, signature-shaped pushes, coinbase elements and interpreters built from transaction inputs; each is stepped to the end and run to completion in supervised child processes. Violations are panics (caught), process death (journal attribution), more steps than elements, run/step disagreement, or stacks that changed on an erroring step.",
   note="Trusted: the harness' step accounting. Computed-size allocations (CAT/MUL/NUM2BIN growth) are capped and counted, as DESIGN §2.11 states. Nesting depth <= 300 (the library's execution cost is cubic in the depth).",
   ref="DESIGN.md §3 C16"),
+ "C17": dict(
+  technique="property-based testing (proptest grammar generator) with round-trip and reference-rendering oracles",
+  text="Minimally-pushed scripts over every opcode, push length class and nested conditional shape are rendered to ASM, re-spaced in nine whitespace styles and parsed back: bytes must be identical; plain and extended renderings must equal a reference renderer over the reference token stream; names, aliases and invalid tokens are enumerated.",
+  note="Trusted: refimpl::script_tok (opcode name table written independently), the generator. Known finding asm-digit-push (format ambiguity) attributed by predicate + delta.",
+  ref="DESIGN.md §3 C17"),
+ "C18": dict(
+  technique="property-based testing (proptest) with round-trip oracles over four encodings",
+  text="Transactions with extended fields, coinbase inputs, 64-bit values and every script element shape are encoded to JSON text, JSON value, CBOR bytes and CBOR hex and decoded again; every field, the element vectors, the wire bytes and the id must be unchanged, also for single inputs.",
+  note="Trusted: the library's accessors and PartialEq as observation functions; refimpl::wire for the wire bytes.",
+  ref="DESIGN.md §3 C18"),
+ "C19": dict(
+  technique=T+"a reference template matcher and index filter written from the statement (reference DER / SEC1 decoders for the typed tokens)",
+  text="Scripts over a typed element pool and templates derived token by token (exact, generalised, perturbed, resized), self-templates of minimally-pushed scripts, and transactions with values at and around every criterion bound; matches / is_match / match_outputs / match_inputs and the single-result forms must agree with the reference.",
+  note="Trusted: the reference matcher in props/c19.rs, refimpl::codec, refimpl::secp. Grey zones (non-canonical DER under OP_SIG, inputs without values) not asserted. Known finding asm-digit-push shared with C17.",
+  ref="DESIGN.md §3 C19"),
+
 
 
  "C20": dict(
